@@ -151,8 +151,45 @@ def demod_chunked(obj, z, chunk=1 << 15):
         if len(z) else np.zeros(0, dtype=int)
 
 
+# ------------------------------------------------------------------ memory layouts
+def as_layout(x, how, fill=0):
+    """the same logical array in another memory layout (the property speaks about arrays position by
+    position; how the caller's array lies in memory must not matter): C, F (Fortran order), T (transposed
+    view of a C array), strided (every second row of a larger array), lastaxis (every second element
+    along the last axis), reversed (negative stride), 0d (0-d ndarray instead of a scalar)"""
+    x = np.asarray(x)
+    if x.ndim == 0 or how in ("C", "0d"):
+        y = np.array(x, order="C")
+    elif how == "F":
+        y = np.asfortranarray(x)
+    elif how == "T":
+        y = np.ascontiguousarray(x.T).T
+    elif how == "strided":
+        big = np.full((2 * x.shape[0] + 1,) + x.shape[1:], fill, dtype=x.dtype)
+        big[1::2] = x
+        y = big[1::2]
+    elif how == "lastaxis":
+        big = np.full(x.shape[:-1] + (2 * x.shape[-1] + 1,), fill, dtype=x.dtype)
+        big[..., 1::2] = x
+        y = big[..., 1::2]
+    elif how == "reversed":
+        y = np.ascontiguousarray(x[::-1])[::-1]
+    else:
+        raise ValueError(how)
+    assert y.shape == x.shape and np.array_equal(y, x)
+    return y
+
+
+def logical(out):
+    """elements in row-major order of the LOGICAL index (position by position)"""
+    return np.asarray(out).reshape(-1) if np.asarray(out).flags.c_contiguous else np.array(out, order="C").reshape(-1)
+
+
 # ------------------------------------------------------------------ recording a history
-SHAPES = [(), (1,), (7,), (2, 3), (2, 1, 4), (0,), (1, 1), (3, 2, 2, 1)]
+# (shape, layout) of the arrays handed to modulate / demodulate
+SHAPES = [((), "C"), ((1,), "C"), ((7,), "C"), ((2, 3), "C"), ((2, 1, 4), "C"), ((0,), "C"), ((1, 1), "C"), ((3, 2, 2, 1), "F"),
+          ((), "0d"), ((7,), "strided"), ((6,), "reversed"), ((3, 5), "F"), ((5, 3), "T"), ((4, 3), "strided"), ((3, 4), "lastaxis"),
+          ((2, 3, 4), "F"), ((4, 3, 2), "T"), ((3, 2, 4), "lastaxis"), ((3, 3), "reversed")]
 
 
 def record_history(spec):
@@ -182,28 +219,29 @@ def record_history(spec):
         if not tb.tabok or not spec.get("calls", True) or M < 1:
             return
         nsamp = spec.get("nsamp", 200)
-        # modulate: index arrays of several shapes, some reaching M and beyond
-        for si, shp in enumerate(SHAPES):
+        # modulate: index arrays of several shapes AND memory layouts, some reaching M and beyond
+        for si, (shp, lay) in enumerate(SHAPES):
             n = int(np.prod(shp))
-            idx = rng.randint(0, M, size=shp)
-            if si in (2, 4) and n:
+            idx = np.asarray(rng.randint(0, M, size=shp))
+            if si in (2, 4, 11) and n:
                 flat = idx.reshape(-1)
                 flat[rng.randint(0, n)] = M + (si // 4) * rng.randint(0, 3)     # M, or a little above
-            arg = int(idx) if shp == () and si == 0 else idx
+            arg = int(idx) if shp == () and lay == "C" else as_layout(idx, lay)
             o, res = outcome(lambda: obj.modulate(arg))
-            e = {"op": "mod", "idx": [int(v) for v in np.asarray(idx).ravel()], "out": o, "pts": [], "ptsok": False,
-                 "shapeok": False, "shape": list(shp)}
+            e = {"op": "mod", "idx": [int(v) for v in idx.reshape(-1)], "out": o, "pts": [], "ptsok": False,
+                 "shapeok": False, "shape": list(shp), "layout": lay}
             if o == "ok":
-                e["pts"], e["ptsok"] = tb.to_coords(res)
+                e["pts"], e["ptsok"] = tb.to_coords(logical(res))
                 e["shapeok"] = tuple(np.shape(res)) == tuple(shp)
             trace["events"].append(e)
-        # demodulate(modulate(idx)) for index arrays of any shape
-        for shp in SHAPES[1:]:
-            idx = rng.randint(0, M, size=shp)
-            o, res = outcome(lambda: obj.demodulate(np.asarray(obj.modulate(idx))))
-            e = {"op": "roundtrip", "idx": [int(v) for v in idx.ravel()], "lab": [], "shapeok": False, "shape": list(shp)}
+        # demodulate(modulate(idx)) for index arrays of any shape; the modulated array is handed over in
+        # the given memory layout (a transposed / Fortran-ordered / strided received array is still the same array)
+        for shp, lay in SHAPES[1:]:
+            idx = np.asarray(rng.randint(0, M, size=shp))
+            o, res = outcome(lambda: obj.demodulate(as_layout(np.asarray(obj.modulate(as_layout(idx, lay))).astype(complex), lay, fill=7 + 7j)))
+            e = {"op": "roundtrip", "idx": [int(v) for v in idx.reshape(-1)], "lab": [], "shapeok": False, "shape": list(shp), "layout": lay}
             if o == "ok":
-                e["lab"] = [int(v) for v in np.asarray(res).ravel()]
+                e["lab"] = [int(v) for v in logical(res)]
                 e["shapeok"] = tuple(np.shape(res)) == tuple(shp) and len(e["lab"]) == len(e["idx"])
             if len(e["lab"]) != len(e["idx"]):
                 e["lab"] = [-2] * len(e["idx"])
@@ -215,7 +253,8 @@ def record_history(spec):
         trace["events"].append({"op": "roundtrip", "idx": [int(v) for v in allidx], "lab": lab, "shapeok": o == "ok", "shape": [len(allidx)]})
         # demodulate noisy samples (python-chosen, on the exact grid): a transmitted point plus
         # Gaussian noise of about half the decision distance, and uniformly random samples
-        for shp in ((nsamp,), (max(1, nsamp // 8), 2, 2)):
+        for shp, lay in (((nsamp,), "C"), ((max(1, nsamp // 8), 2, 2), "C"), ((4, 6), "F"), ((6, 4), "T"), ((2, 3, 4), "F"),
+                         ((4, 3, 2), "T"), ((5, 4), "strided"), ((3, 8), "lastaxis"), ((9,), "reversed"), ((), "0d")):
             n = int(np.prod(shp))
             lab_tx = rng.randint(0, M, size=n)
             if sk == "PSK":
@@ -230,12 +269,12 @@ def record_history(spec):
                 b = base[:, 1] + np.round(rng.randn(n) * 0.9 * d).astype(np.int64)
                 if sk == "BPSK":
                     b = np.round(rng.randn(n) * 2 * d).astype(np.int64)
-            z = tb.sample(a, b, d).reshape(shp)
+            z = as_layout(np.asarray(tb.sample(a, b, d), dtype=complex).reshape(shp), lay, fill=7 + 7j)
             o, res = outcome(lambda: obj.demodulate(z))
             e = {"op": "demod", "a": [int(v) for v in a], "b": [int(v) for v in b], "lab": [-2] * n, "shapeok": False,
-                 "shape": list(shp)}
+                 "shape": list(shp), "layout": lay}
             if o == "ok" and np.size(res) == n:
-                e["lab"] = [int(v) for v in np.asarray(res).ravel()]
+                e["lab"] = [int(v) for v in logical(res)]
                 e["shapeok"] = tuple(np.shape(res)) == tuple(shp)
             trace["events"].append(e)
 
@@ -255,7 +294,7 @@ def record_history(spec):
 # ------------------------------------------------------------------ TLC: trace validation
 def _strip(trace):
     return {"kind": trace["kind"], "m": trace["m"], "d": trace["d"],
-            "events": [{k: v for k, v in e.items() if k != "shape"} for e in trace["events"]]}
+            "events": [{k: v for k, v in e.items() if k not in ("shape", "layout")} for e in trace["events"]]}
 
 
 def _cost(trace):
